@@ -1,10 +1,13 @@
-// Candidate finding (C14, unit top_hits_merge): top_hits with `from` larger than the number of documents of the bucket panics.
+// STATUS: REPAIRED in /repo by commit "fix: top_hits aggregation panicked when `from` exceeds the number of hits"; main ran this demo on the repaired tree: all tests pass.
+// The "Recorded" lines below are from the tree BEFORE the fix; unit top_hits_topn now proves the repaired code without the restriction
+// (mutants final_drain_unbounded / merge_into_old_computer restore the defects and are caught).
+// Finding (C14, unit top_hits_topn): top_hits with `from` larger than the number of documents of the bucket panics.
 //
 // TopHitsTopNComputer::into_final_result (src/aggregation/metric/top_hits.rs) ends with
 //     hits.drain(..self.req.from.unwrap_or(0));
 // `Vec::drain(..n)` panics when n > len.  `hits` holds min(size + from, #documents collected) entries, so every bucket that received
 // fewer than `from` documents (an empty index, an empty bucket, a selective query) panics instead of returning no hits.
-// The Verus unit top_hits_merge proves "drop the first `from`, keep the rest" under the explicit precondition from <= #entries.
+// The Verus unit top_hits_topn proves "drop the first `from`, keep the rest" under the explicit precondition from <= #entries.
 //
 // Ordinary integration test, public API only: copy into tests/ of a copy of the tree,
 //   cargo test --offline --test demo_top_hits_from_panics -- --nocapture
